@@ -57,6 +57,12 @@ pub struct ItemSpec {
 pub struct UnitSpec {
     pub unit: String,
     pub property: String,
+    /// "verus" (default) or "rustc" (plain Rust file: type-level frame proofs, closed-term evaluation)
+    #[serde(default)]
+    pub mode: String,
+    /// plain Rust appended after the extracted items in rustc mode (e.g. a `main` that evaluates closed terms)
+    #[serde(default)]
+    pub epilogue: Vec<String>,
     #[serde(default)]
     pub crate_attrs: Vec<String>,
     #[serde(default)]
@@ -346,8 +352,11 @@ fn main() {
         let _ = writeln!(out, "{a}");
     }
     let _ = writeln!(out, "#![allow(unused, dead_code, non_snake_case, non_camel_case_types)]");
-    let _ = writeln!(out, "use vstd::prelude::*;");
-    let _ = writeln!(out, "verus! {{");
+    let rustc_mode = unit.mode == "rustc";
+    if !rustc_mode {
+        let _ = writeln!(out, "use vstd::prelude::*;");
+        let _ = writeln!(out, "verus! {{");
+    }
     let cur_line = |s: &str| s.matches('\n').count() + 1;
 
     for (label, files) in [("prelude", &unit.prelude), ("spec", &unit.spec)] {
@@ -364,7 +373,7 @@ fn main() {
         }
     }
 
-    if canary {
+    if canary && !rustc_mode {
         let _ = writeln!(out, "// vacuity guard: an inconsistent prelude/spec would prove this");
         let _ = writeln!(out, "proof fn prelude_consistency__canary() ensures false {{}}");
     }
@@ -447,8 +456,17 @@ fn main() {
             die(&format!("clauses for `{id}` match no extracted item (anchor lost)"));
         }
     }
-    let _ = writeln!(out, "}} // verus!");
-    let _ = writeln!(out, "fn main() {{}}");
+    if rustc_mode {
+        for p in &unit.epilogue {
+            let t = std::fs::read_to_string(unit_dir.join(p))
+                .unwrap_or_else(|e| die(&format!("cannot read {p}: {e}")));
+            let _ = writeln!(out, "// ---- epilogue: {p}");
+            out.push_str(&t);
+        }
+    } else {
+        let _ = writeln!(out, "}} // verus!");
+        let _ = writeln!(out, "fn main() {{}}");
+    }
 
     std::fs::write(&out_rs, &out).unwrap_or_else(|e| die(&format!("cannot write output: {e}")));
     let meta = json!({
